@@ -12,19 +12,21 @@
 // See the License for the specific language governing permissions and
 // limitations under the License.
 
-//go:build !verif
-// +build !verif
+//go:build verif
+// +build verif
 
-package dragonboat
+package rsm
 
-// verifEnabled is true only in builds made with the `verif` build tag, which
-// is used by the deterministic simulation harness kept outside of this
-// repository. In regular builds it is a false constant and every
-// `if verifEnabled` branch is removed by the compiler.
-const verifEnabled = false
+const verifEnabled = true
 
-func (e *engine) verifClose() error { return nil }
+// VerifHeaderTime, when set by the simulation harness, replaces the wall
+// clock time recorded (for information only) in snapshot headers: the bytes
+// of a snapshot file are then a function of its content only.
+var VerifHeaderTime func() uint64
 
-func verifYield(string) {}
-
-func verifKeySeed(uint64, uint64, uint64) (int64, bool) { return 0, false }
+func verifHeaderTime(t uint64) uint64 {
+	if f := VerifHeaderTime; f != nil {
+		return f()
+	}
+	return t
+}
